@@ -27,7 +27,7 @@ from .oracles import worldprops as W
 from .sched import Sched, BIG, SchedError
 
 PROF = profile(p_callback=0.4, p_inconsistent=0.02, p_all_fixed=0.02, maxfev_hi=50, p_disp=0.05, p_nonlinear=0.5,
-               p_linear=0.4, n_weights=[(3, 1), (5, 2), (3, 3), (1, 4)])
+               p_linear=0.4, n_weights=[(3, 1), (5, 2), (3, 3), (1, 4)], p_no_options=0.3, p_narrow_box=0.3)
 
 
 # ---------------------------------------------------------------------------
@@ -466,7 +466,14 @@ def repeat_case(seed, idx, tier):
     cr = CaseResult()
     rng = Rng(seed, "C11a", idx)
     sA = scenario.gen_statement(rng, PROFILES["C11"])
-    sB = scenario.gen_statement(rng, PROFILES["C11"])
+    if rng.chance(0.5):
+        # a sibling call: same dimension, default options, a narrow box - the shape of call that shares
+        # dimension-keyed or default-valued state with A if any is kept between calls
+        sB = scenario.gen_statement(rng, profile(**dict(PROFILES["C11"], force_n=sA["n"], p_no_options=0.8,
+                                                        p_bounds=1.0, p_narrow_box=0.8, p_inconsistent=0.0)))
+        cr.stats["c11.a_sibling_between"] += 1
+    else:
+        sB = scenario.gen_statement(rng, PROFILES["C11"])
     st = cr.stats
     base = run_client(sA, [])
     cr.account(base)
@@ -477,26 +484,33 @@ def repeat_case(seed, idx, tier):
     plan = [f for f in scenario.gen_fault_plan(rng, sA, _nevals(base), 0, allow_linalg=False) if f["kind"] != "cache_off"]
     sA2, how = force_ending(rng, sA, base)
     st["forced." + how] += 1
-    r1 = run_client(sA2, plan)
+    # the very first call of this (freshly forked) process was `base`; now A under faults, B, then A again
+    r1 = run_client(sA, plan)
     cr.account(r1, nontrivial_needs_fault=bool(plan))
     rb = run_client(sB, [])
     cr.account(rb)
-    r2 = run_client(sA2, plan)
+    r2 = run_client(sA, plan)
     cr.account(r2)
-    r3 = run_client(sA2, plan, use_probes=False)
+    r3 = run_client(sA, plan, use_probes=False)
     cr.account(r3)
-    if r1.harness_error or r2.harness_error or r3.harness_error:
+    rf_ = run_client(sA2, plan)
+    cr.account(rf_)
+    r4 = run_client(sA, [])
+    cr.account(r4)
+    if any(r.harness_error for r in (r1, r2, r3, rb, rf_, r4)):
         return cr
     st["c11.a_repeats"] += 1
+    pay = {"engine": "repeat", "stmt": sA, "faults": plan, "between": sB, "forced": sA2}
     if r1.digest() != r2.digest():
-        cr.add_viols([Viol("C11", "a", "repeating a call after another call gives a different run", key="repeat_differs")],
-                     {"engine": "repeat", "stmt": sA2, "faults": plan, "between": sB})
+        cr.add_viols([Viol("C11", "a", "repeating a call after another call gives a different run", key="repeat_differs")], pay)
     if r1.digest() != r3.digest():
-        cr.add_viols([Viol("C11", "a", "the run differs with and without the read-only probes", key="probe_perturbs")],
-                     {"engine": "repeat", "stmt": sA2, "faults": plan, "between": sB})
-    for r, nm in ((r1, "first"), (rb, "other")):
+        cr.add_viols([Viol("C11", "a", "the run differs with and without the read-only probes", key="probe_perturbs")], pay)
+    if base.digest() != r4.digest():
+        cr.add_viols([Viol("C11", "a", "the first call of the process and the same call made after four other calls "
+                           "differ", key="history_dependent")], pay)
+    for r in (r1, rb, rf_):
         cr.add_viols(W.c11b(r, st), {"engine": "args", "stmt": r.stmt, "faults": r.faults})
-    cr.sample = {"stmt": sA2, "faults": plan}
+    cr.sample = {"stmt": sA, "faults": plan}
     return cr
 
 
@@ -577,16 +591,23 @@ def replay(p):
     if eng == "args":
         return W.c11b(run_client(p["stmt"], p["faults"]), st)
     if eng == "repeat":
+        base = run_client(p["stmt"], [])
         r1 = run_client(p["stmt"], p["faults"])
         if p.get("between"):
             run_client(p["between"], [])
         r2 = run_client(p["stmt"], p["faults"])
         r3 = run_client(p["stmt"], p["faults"], use_probes=False)
+        if p.get("forced"):
+            run_client(p["forced"], p["faults"])
+        r4 = run_client(p["stmt"], [])
         out = []
         if r1.digest() != r2.digest():
             out.append(Viol("C11", "a", "repeating a call gives a different run", key="repeat_differs"))
         if r1.digest() != r3.digest():
             out.append(Viol("C11", "a", "the run differs with and without the read-only probes", key="probe_perturbs"))
+        if base.digest() != r4.digest():
+            out.append(Viol("C11", "a", "the first call of the process and the same call made later differ",
+                            key="history_dependent"))
         return out
     if eng == "nested":
         bo = run_client(p["outer"], [])
